@@ -30,12 +30,17 @@ type SMMsg struct {
 	E2E   uint32 `json:"e2e"`
 	Flags uint8  `json:"flags"`         // extra command flag bits besides R (P 0x40, T 0x10)
 	OSI   bool   `json:"osi,omitempty"` // a CER that carries the peer's Origin-State-Id (42)
+	NoM   bool   `json:"no_m,omitempty"` // a CER whose application-id AVPs (and the members of its Vendor-Specific-Application-Id) come without the M bit
 }
 
 type SMCase struct {
 	StateID  uint32  `json:"state_id,omitempty"` // Settings.OriginStateID of the local state machine
 	Firmware uint32  `json:"firmware,omitempty"` // Settings.FirmwareRevision (an optional AVP of the answers)
 	Msgs     []SMMsg `json:"msgs"`               // the first one is the CER
+	// Upstream: the holder of the kept CER is a relay; after the last message it advertises the
+	// peer's applications upstream: an sm.Client configured with the application AVPs of the kept
+	// CER dials (see upstream_test.go) while the downstream connection is still open.
+	Upstream bool `json:"upstream,omitempty"`
 }
 
 func (m SMMsg) image() []byte {
@@ -72,6 +77,16 @@ func (m SMMsg) image() []byte {
 		nodes = append(nodes[1:], &refcodec.Node{Code: 259, Flags: 0x40, Payload: refcodec.U32(3)})
 	case "cer-inband":
 		nodes = append(nodes, &refcodec.Node{Code: 259, Flags: 0x40, Payload: refcodec.U32(3)}, &refcodec.Node{Code: 299, Flags: 0x40, Payload: refcodec.U32(1)})
+	}
+	if m.NoM {
+		for _, n := range nodes {
+			if n.Code == 258 || n.Code == 259 || n.Code == 260 {
+				n.Flags &^= 0x40
+				for _, k := range n.Children {
+					k.Flags &^= 0x40
+				}
+			}
+		}
 	}
 	return refcodec.EncodeMessage(refcodec.Header{Version: 1, Flags: flags, Code: 257, HopByHop: m.HbH, EndToEnd: m.E2E}, nodes, false)
 }
@@ -157,6 +172,19 @@ func runSM(c SMCase) *ev.Failure {
 			break
 		}
 	}
+	if c.Upstream {
+		mu.Lock()
+		first := append([]keptSM(nil), kept...)
+		mu.Unlock()
+		for _, k := range first {
+			if !advertiseUpstream(k.m) {
+				continue
+			}
+			if f := k.check("after an sm.Client configured with its application AVPs had dialled upstream"); f != nil {
+				return f
+			}
+		}
+	}
 	mc.FeedEOF()
 	mc.WaitClosed(2 * time.Second)
 	mu.Lock()
@@ -178,7 +206,7 @@ func runSM(c SMCase) *ev.Failure {
 
 var smKeepProp = ev.Register(&ev.Prop[SMCase]{
 	ID: "C06", Name: "kept-in-front-of-state-machine",
-	Rule: "a handler that keeps every request stands in front of a server state machine (sm.New, Origin-State-Id and Firmware-Revision configured or not) on an in-memory connection: a CER (accepted - applications at top level or inside a Vendor-Specific-Application-Id whose Vendor-Id is not the first member -, or refused for no common application / missing Origin-Host / inband security; with or without the peer's Origin-State-Id), then after an accepted one 0..5 DWRs (with and without Origin-State-Id) and accounting requests answered by an application handler, with generated identifiers and P / T bits. " +
+	Rule: "a handler that keeps every request stands in front of a server state machine (sm.New, Origin-State-Id and Firmware-Revision configured or not) on an in-memory connection: a CER (accepted - applications at top level or inside a Vendor-Specific-Application-Id whose Vendor-Id is not the first member -, or refused for no common application / missing Origin-Host / inband security; with or without the peer's Origin-State-Id), then after an accepted one 0..5 DWRs (with and without Origin-State-Id) and accounting requests answered by an application handler, with generated identifiers and P / T bits; the CER's application-id AVPs with or without the M bit; optionally the holder then advertises the peer's applications upstream: an sm.Client whose AuthApplicationID / AcctApplicationID / VendorSpecificApplicationID are the AVPs of the kept CER dials twice over an in-memory transport (first CER turned down, second accepted). " +
 		"Demanded: right after the state machine handled a request, and again after the connection ended, the kept request has the header and AVP count it was delivered with and serialises to the image the peer sent. non-trivial = the state machine wrote an answer built from a kept request",
 	Gen: func(t *rapid.T) SMCase {
 		var c SMCase
@@ -194,7 +222,8 @@ var smKeepProp = ev.Register(&ev.Prop[SMCase]{
 		}
 		h, e, f := ids("cer")
 		c.Msgs = append(c.Msgs, SMMsg{Kind: rapid.SampledFrom([]string{"cer-ok", "cer-ok", "cer-ok-vsa", "cer-no-common-app", "cer-no-origin-host", "cer-inband"}).Draw(t, "cer"), HbH: h, E2E: e, Flags: f,
-			OSI: rapid.Bool().Draw(t, "cer-origin-state-id")})
+			OSI: rapid.Bool().Draw(t, "cer-origin-state-id"), NoM: rapid.Bool().Draw(t, "cer-apps-without-m-bit")})
+		c.Upstream = rapid.Bool().Draw(t, "advertise-upstream")
 		if c.Msgs[0].Kind == "cer-ok" || c.Msgs[0].Kind == "cer-ok-vsa" {
 			n := rapid.IntRange(0, 5).Draw(t, "requests")
 			for i := 0; i < n; i++ {
@@ -215,12 +244,18 @@ var smKeepProp = ev.Register(&ev.Prop[SMCase]{
 			if m.OSI {
 				cl["cer-with-origin-state-id"] = true
 			}
+			if m.NoM {
+				cl["cer-apps-without-m-bit"] = true
+			}
 		}
 		if c.StateID != 0 {
 			cl["origin-state-id-configured"] = true
 		}
 		if c.Firmware != 0 {
 			cl["firmware-revision-configured"] = true
+		}
+		if c.Upstream {
+			cl["advertised-upstream"] = true
 		}
 		var ks []string
 		for k := range cl {
